@@ -16,4 +16,33 @@ CHECKS = {
     technique="TLA+ table-walk/free-mode state enumeration (TLC) replayed on the real CLI; tree-diff judge; spec-drift report"),
 }
 
+CHECKS["C04"] = dict(
+    level="model_checking",
+    text="TLC enumerates every line class (RedactorEW: component x message x which attribute carries the command x namespace relation x "
+         "damaged envelopes x slot), every vocabulary key in every slot (RedactorFree) and every operator-table entry (RedactorTW); each "
+         "state is replayed through the real CLI with exotic number literals and escape-heavy strings outside the zones, and the diff of "
+         "input and output trees is required to be confined to the positions the statement allows. Confinement over all attributes of "
+         "all lines is a whole-tree relation; exact number-literal text cannot be seen by float comparisons.",
+    design="5 C04", note=L3_NOTE,
+    technique="TLA+ envelope-walk/free/table-walk state enumeration (TLC) replayed on the real CLI; confinement tree-diff judge")
+CHECKS["C01"] = dict(
+    level="model_checking",
+    text="The environment grammar spec/MongoGrammar.tla labels every leaf position a client can write (user / ref / keep / ns / free) "
+         "from the MongoDB manual and the statement, independently of the implementation's tables. TLC walks it in lock-step with the "
+         "walker specification (RedactorGM: one shortest path through every grammar edge in every walker context, every leaf kind, plus "
+         "a bounded walk with labelled siblings; RedactorEW: every line class x slot; every word of the current operator tables as a "
+         "user field name) and each state is replayed through the real CLI under full-redaction flag sets incl. --encrypt and "
+         "--redactFieldNames. Verdict: whole-line search for the unique canary of every `user` leaf. Absence from the whole line at "
+         "every grammar position is what single-path assertions on 25 fixtures cannot give.",
+    design="5 C01", note=L3_NOTE + " The labels of MongoGrammar.tla are the oracle for which positions hold client literals.",
+    technique="TLA+ environment grammar + walker spec, TLC-enumerated labelled cases replayed on the real CLI; whole-line canary search")
+CHECKS["C05"] = dict(
+    level="model_checking",
+    text="Same grammar-mode state space as C01 (every grammar edge in every walker context x every literal class), replayed in "
+         "placeholder mode with replacement texts containing quotes, backslashes, non-ASCII and the empty string; every redacted leaf "
+         "is classified by its position and validated by an independent class test (ISO-8601 parse, 24 hex, strict base64, e-mail "
+         "shape, exact replacement text, 0, false); BSON subType must be untouched.",
+    design="5 C05", note=L3_NOTE,
+    technique="TLA+ grammar-mode cases (TLC) replayed on the real CLI; independent per-class validity judge")
+
 NOT_YET = {}
